@@ -129,13 +129,28 @@ ChunkW(ch, off, extras, sty) ==
     IN [bytes |-> bytes, tun |-> tun,
         cc |-> Struct(<<F(2, L(off)), F(3, md)>> \o (IF extras THEN ExtraFields(20) ELSE <<>>))]
 
+\* LogicalType union (parquet.thrift): lt = [k |-> kind, ...parameters]; TimeUnit is itself a union of empty structs
+Empty == Struct(<<>>)
+UnitTree(u) == Struct(<<F(CASE u = "ms" -> 1 [] u = "us" -> 2 [] OTHER -> 3, Empty)>>)
+LogicalTree(lt) ==
+    Struct(<< CASE lt.k = "string" -> F(1, Empty) [] lt.k = "map" -> F(2, Empty) [] lt.k = "list" -> F(3, Empty)
+                [] lt.k = "enum" -> F(4, Empty)
+                [] lt.k = "decimal" -> F(5, Struct(<<F(1, I(lt.scale)), F(2, I(lt.precision))>>))
+                [] lt.k = "date" -> F(6, Empty)
+                [] lt.k = "time" -> F(7, Struct(<<F(1, Bool(lt.utc)), F(2, UnitTree(lt.unit))>>))
+                [] lt.k = "timestamp" -> F(8, Struct(<<F(1, Bool(lt.utc)), F(2, UnitTree(lt.unit))>>))
+                [] lt.k = "integer" -> F(10, Struct(<<F(1, [t |-> "byte", v |-> lt.bits]), F(2, Bool(lt.signed))>>))
+                [] lt.k = "null" -> F(11, Empty) [] lt.k = "json" -> F(12, Empty) [] lt.k = "bson" -> F(13, Empty)
+                [] lt.k = "uuid" -> F(14, Empty) [] lt.k = "float16" -> F(15, Empty) >>)
+HasLt(e) == "lt" \in DOMAIN e /\ e.lt.k # "none"
 ElemTree(e) ==
     Struct( (IF e.hasType THEN <<F(1, I(e.type))>> ELSE <<>>)
          \o (IF e.hasType /\ e.type = 7 THEN <<F(2, I(e.tlen))>> ELSE <<>>)
          \o (IF e.hasRep THEN <<F(3, I(e.rep))>> ELSE <<>>)
          \o <<F(4, Bin(e.name))>>
          \o (IF ~e.hasType \/ e.nchild > 0 THEN <<F(5, I(e.nchild))>> ELSE <<>>)
-         \o (IF e.conv # 255 THEN <<F(6, I(e.conv))>> ELSE <<>>) )
+         \o (IF e.conv # 255 THEN <<F(6, I(e.conv))>> ELSE <<>>)
+         \o (IF HasLt(e) THEN <<F(10, LogicalTree(e.lt))>> ELSE <<>>) )
 
 Layout(d) ==
     LET \* lay the chunks out one after the other from offset 4
